@@ -39,6 +39,8 @@ pub struct GenCfg {
     /// /100 chance a write tx creates a few dozen sibling buckets under one parent, so that
     /// whole leaves consist of bucket entries
     pub p_many_buckets: u32,
+    /// C06: one reopen in three is preceded by media damage to the non-current header page
+    pub damage_on_reopen: bool,
 }
 
 impl GenCfg {
@@ -92,6 +94,7 @@ impl GenCfg {
             marker: false,
             huge_value: false,
             p_many_buckets: *r.pick(&[0, 0, 10, 30]),
+            damage_on_reopen: false,
         }
     }
 }
@@ -230,6 +233,10 @@ impl Gen {
                     self.txs_done += 0;
                     // a reopen does not count as a transaction
                     if self.r.chance(1, 2) {
+                        if self.cfg.damage_on_reopen && self.r.chance(1, 3) {
+                            self.queue.push_back(Step::Reopen);
+                            return Some(Step::DamageOlderHeader { kind: self.r.below(5) as u8 });
+                        }
                         return Some(Step::Reopen);
                     }
                 }
